@@ -38,7 +38,7 @@ CHECKS = {
  "C09": dict(
    technique="TLA+ protocol specification of the Method/Sequence API over handles (TLC: exhaustive small programs + simulation), programs replayed on every method through the real generic API and compared bit for bit with element-wise next",
    category="model_checking",
-   text="spec/Api.tla: a handle's abstract state is the number of inputs consumed; every call form (next, over, call, apply, new_over, new_apply, into_fn/new_fn, with_history{next,get,iter}, with_last_value{next,peek}, peek, clone, snapshot) must return the slice ys[c+1..c+k] of ONE reference run and advance c by k; independence of handles is an action property checked by TLC. TLC enumerates every program of <= 4 operations (3 handles, chunks 0..2) and simulates longer ones; the harness replays them on 47 method subjects (29 through the real generic wrappers) x 3 streams (random, ties, movement-flat-movement), bit-exact; Api_deep adds one-handle programs with chunks of any size 0..24 followed by peek / another chunk, i.e. peek and bulk calls at every position of the stream.",
+   text="spec/Api.tla: a handle's abstract state is the number of inputs consumed; every call form (next, over, call, apply, new_over, new_apply, into_fn/new_fn, with_history{next,get,iter}, with_last_value{next,peek}, peek, clone, snapshot) must return the slice ys[c+1..c+k] of ONE reference run and advance c by k; independence of handles is an action property checked by TLC. TLC enumerates every program of <= 4 operations (3 handles, chunks 0..2) and simulates longer ones; the harness replays them on 47 method subjects (29 through the real generic wrappers) x 3 streams (random, ties, movement-flat-movement), bit-exact; Buffered::get of SMA / Past / TRIMA against a mirror Window for indices up to 2^32; Api_deep adds one-handle programs with chunks of any size 0..24 followed by peek / another chunk, i.e. peek and bulk calls at every position of the stream.",
    design_ref="DESIGN.md 5/C09",
    note="Indicator-level over/init_fn are covered by C11's static-vs-dyn replay. Pair/candle-input methods run bulk operations element-wise (their generic bulk API does not exist for unsized inputs)."),
  "C10": dict(
@@ -108,7 +108,7 @@ CHECKS = {
  "C11": dict(
    technique="TLA+ model of the configuration contract instantiated with the catalogue of public parameters (TLC enumerates every (name, text)), replayed on static and dyn configurations; Api.tla programs on every indicator (static vs dyn)",
    category="model_checking",
-   text="spec/Config.tla: set(name, text) changes exactly the named public parameter to the value the text denotes for its type, else Err and unchanged; TLC enumerates per indicator all fields + foreign names x 22 texts and two-step sequences (29k programs), the harness replays them on the real static and dynamically dispatched configurations (observed through Serialize). Api.tla with the indicator operation set (init, next, over, init_fn, clone, snapshot) replayed on all 36 indicators, static and dyn, bit-exact; static vs dyn on every configuration MC_IndParams enumerates, valid or not (validate, name, size, init Ok/Err, over on 0/1/6 candles); name(), size(), config(), default validity; the result shape is compared with size() at every step of 400-step streams with untraded stretches (runs of zero-volume candles, zero-volume first candle), and every result of every C05/C06 trace has exactly size() values and signals.",
+   text="spec/Config.tla: set(name, text) changes exactly the named public parameter to the value the text denotes for its type, else Err and unchanged; TLC enumerates per indicator all fields + foreign names x 22 texts and two-step sequences (29k programs), the harness replays them on the real static and dynamically dispatched configurations (observed through Serialize). Api.tla with the indicator operation set (init, next, over, init_fn, clone, snapshot) replayed on all 36 indicators, static and dyn, bit-exact; static vs dyn on every configuration MC_IndParams enumerates, valid or not (validate, name, size, init Ok/Err, over on 0/1/6 candles); IndicatorResult::new on every (nv, ns) in 0..6 x 0..6 (MC_Result: truncation to its capacity, all accessors); name(), size(), config(), default validity; the result shape is compared with size() at every step of 400-step streams with untraded stretches (runs of zero-volume candles, zero-volume first candle), and every result of every C05/C06 trace has exactly size() values and signals.",
    design_ref="DESIGN.md 5/C11",
    note="The catalogue is read from the serialized default configurations (the struct definitions)."),
  "C12": dict(
